@@ -21,7 +21,7 @@ TECHNIQUE = "explicit-state BFS over the real methods (shared C04 transition sys
 RULE = c04.RULE + "; in every state: integral(), log_integral(), integral_light(), log_integral_light(), integrate('1') vs the integral of the identified quadratic; PDFs: identified integral = 1. Constructors: {Sigma; Sigma+Lambda; Sigma+Lambda+ln_det_Sigma} x {GaussianPDF, GaussianDiagPDF} x R x D x catalogue"
 ASSUMPTIONS = c04.ASSUMPTIONS + ["quadratic identification: evaluate_ln probed on the lattice {0, +-e_i, e_i+e_j} + 3 verification points (quadraticity residual <= 1e-7 certified per state)"]
 BOUNDS = {
-    "quick": dict(D=[2], rcap=4, full_alphabet_depth=2, reduced_alphabet_depth=3, vi=[0, 100], ctor=dict(R=[1, 2, 3], D=[1, 2, 3])),
+    "quick": dict(D=[2], rcap=4, full_alphabet_depth=2, reduced_alphabet_depth=3, vi=[0, 100], D_shallow=[1, 3], shallow_depth=1, ctor=dict(R=[1, 2, 3], D=[1, 2, 3])),
     "thorough": dict(D=[1, 2, 3], rcap=6, full_alphabet_depth=3, reduced_alphabet_depth=5, vi=[0, 1, 100], ctor=dict(R=[1, 2, 3, 4], D=[1, 2, 3, 4])),
 }
 BUDGET = {"quick": 900, "thorough": 7200}
